@@ -1,6 +1,7 @@
 SPECIFICATION Spec
 CONSTANTS
   Unchecked = {"http:POST:/snapshot"}
+  FullStar = FALSE
   MutEach = FALSE
   NoBodyAfterError = TRUE
   Roles = {"leader"}
